@@ -47,13 +47,25 @@ func hC15History() {
 	}
 	respMsgs := []wireMsg{{abstract: nondetBytes("resp", 2), compressed: cfg.svcComp}}
 
+	// handlers written with connect-go / grpc-go close the request body themselves; plain handlers do not
+	closeBody := verifChoose("handlerClosesBody", 2) == 1
 	fresh := newPipe(cfg)
 	if !fresh.buildOK {
 		return
 	}
+	fresh.backend.closeBody = closeBody
+	// a full-duplex handler answers after reading only the start of the request (two RPC stages hold pooled
+	// buffers at the same time)
+	readFirst := 0
+	if cfg.kind == fkBidi && verifChoose("fullDuplex", 2) == 1 {
+		readFirst = 6
+	}
+	fresh.backend.readFirst = readFirst
 	want := runProbe(fresh, cfg, reqMsgs, respMsgs, cfg.svcComp)
 
 	used := newPipe(cfg)
+	used.backend.closeBody = closeBody
+	used.backend.readFirst = readFirst
 	history := verifChoose("history", 7)
 	switch history {
 	case 0: // an earlier valid RPC with different (larger) contents
@@ -107,17 +119,20 @@ func hC15History() {
 		cc.Write([]byte("half")) // never closed
 		pool.compressors.Put(cc)
 	}
-	got := runProbe(used, cfg, reqMsgs, respMsgs, cfg.svcComp)
-
 	verifObsBytes("fresh-backend-body", want.body)
 	verifObsBytes("fresh-client-body", want.out)
-	verifObsBytes("used-backend-body", got.body)
-	verifObsBytes("used-client-body", got.out)
-	verifReach("probe-after-history")
-	verifAssert(want.calls == got.calls, "C15: dispatch independent of earlier traffic")
-	verifAssert(bytesEq(want.body, got.body) && want.readErr == got.readErr, "C15: request delivered to the backend independent of earlier traffic")
-	verifAssert(want.status == got.status && bytesEq(want.out, got.out), "C15: response independent of earlier traffic")
-	verifAssert(headersEqual(want.hdr, got.hdr), "C15: response headers/trailers independent of earlier traffic")
+	// the probe is repeated: which pooled object a later RPC is handed depends on how many Gets and Puts
+	// came before it, so damage done by the earlier RPC may only surface on the second or third probe
+	for i := 0; i < 3; i++ {
+		got := runProbe(used, cfg, reqMsgs, respMsgs, cfg.svcComp)
+		verifObsBytes("used-backend-body", got.body)
+		verifObsBytes("used-client-body", got.out)
+		verifReach("probe-after-history")
+		verifAssert(want.calls == got.calls, "C15: dispatch independent of earlier traffic")
+		verifAssert(bytesEq(want.body, got.body) && want.readErr == got.readErr, "C15: request delivered to the backend independent of earlier traffic")
+		verifAssert(want.status == got.status && bytesEq(want.out, got.out), "C15: response independent of earlier traffic")
+		verifAssert(headersEqual(want.hdr, got.hdr), "C15: response headers/trailers independent of earlier traffic")
+	}
 	// sanity: the fresh probe itself succeeds (otherwise the comparison says little)
 	out := refParseClientResponse(cfg, fresh.sink, true)
 	verifAssert(out.valid && out.code == 0, "C15: probe RPC succeeds on a fresh transcoder")
